@@ -387,9 +387,12 @@ def run(sim, sc):
                 th.start()
             for th in ths:
                 th.join()
-            client.request('/shutdown', response_timeout=100)
+            # as in the library's own example: no response is awaited for the shutdown control message (the server may stop
+            # responding on a connection the moment it sees the shutdown flag; that message is not a routed request)
+            client.request('/shutdown', response_timeout=0)
     except Exception as e:
-        sim.violation('client:raised', {'exc': repr(e)[:300]})
+        import traceback as _tb
+        sim.violation('client:raised', {'exc': repr(e)[:300], 'where': [ (f.filename.rsplit('/', 1)[-1], f.lineno, f.name) for f in _tb.extract_tb(e.__traceback__)][-6:]})
     sth.join(120)
     if sth.is_alive():
         sim.violation('server:did-not-shut-down', {})
